@@ -38,6 +38,9 @@ def run(ctx):
         cands = fixture_bases()
         for feat in ("multi-folder", "nonsolid", "folder-crc", "no-crc", "partial-crc", "packpos", "dummy", "nums-explicit", "no-substreams", "partial-mtime", "header-lzma", "packcrc"):
             members = c06.tweak_members(rng, c06.gen_logical(rng), feat)
+            if not any(m["kind"] == "file" and m["data"] for m in members):
+                members.append({"name": "payload-%s.bin" % feat, "kind": "file", "data": rng.randbytes(300), "attr": c06.FILE_ATTR, "mtime": 130000000000000000,
+                                "ctime": None, "atime": None})      # a layout feature of the data area needs data
             lay = c06.gen_layout(rng, members, feat)
             cands.append(("ref:" + feat, refwriter.build(members, lay, rng), None))
         refs = refreader.read_many(ctx, [c[1] for c in cands], [c[2] for c in cands])
